@@ -148,6 +148,38 @@ let dispatch (fields : string list) : string =
       (match decode_track (bytes_of_field body) with
        | None -> "DECODE-FAIL"
        | Some got -> string_of_items got ^ "\t" ^ String.concat "," (List.map string_of_z (abs_ticks Z0 got)))
+  | ["lex_vs_tokens"; ast] ->
+      (* C03 model-internal consistency: the model lexer on the printed tree vs NoteSimDefs.tokens_of
+         (TLineNo 0 first, as every lex call). SKIP = outside wf_prog / lexable_prog. *)
+      let (prog, rest) = parse_cmds (List.filter (fun x -> x <> "") (String.split_on_char ' ' ast)) [] in
+      if rest <> [] then "BAD:trailing" else
+      if not (wf_prog prog) then "SKIP:wf" else
+      if not (lexable_prog prog) then "SKIP:lexable" else
+      let z = string_of_z in
+      let zl l = String.concat "." (List.map z l) in
+      let rec pt (t : tok) : string =
+        match t with
+        | TLineNo n -> "Ln" ^ z n
+        | TNote (b, f, n, l, q, v, tm, o, s) -> Printf.sprintf "N(%s,%s,%s,[%s],%s,%s,%s,%s,%s)" (z b) (z f) (z n) (zl l) (z q) (z v) (z tm) (z o) (z s)
+        | TNoteN (no, l, q, v, tm, s) -> Printf.sprintf "M(%s,[%s],%s,%s,%s,%s)" (z no) (zl l) (z q) (z v) (z tm) (z s)
+        | TRest (d, l) -> Printf.sprintf "R(%s,[%s])" (z d) (zl l)
+        | TLength l -> Printf.sprintf "L[%s]" (zl l)
+        | TOctave v -> "O" ^ z v | TOctaveRel v -> "Or" ^ z v
+        | TVelocity (v, i) -> Printf.sprintf "V(%s,%s)" (z v) (z i) | TVelocityRel v -> "Vr" ^ z v
+        | TQLen v -> "Q" ^ z v | TTiming v -> "T" ^ z v
+        | TLoopBegin n -> "[" ^ z n | TLoopBreak -> ":" | TLoopEnd -> "]"
+        | THarmonyBegin -> "H{"
+        | THarmonyEnd (l, q, v) -> Printf.sprintf "}H([%s],%s,%s)" (zl l) (z q) (match v with Some x -> z x | None -> "-")
+        | TDiv (c, l, ch) -> Printf.sprintf "D(%s,[%s]){%s}" (z c) (zl l) (String.concat " " (List.map pt ch))
+        | TSub ch -> Printf.sprintf "S{%s}" (String.concat " " (List.map pt ch))
+        | TTrack v -> "TR" ^ z v | TChannel v -> "CH" ^ z v | TVoice a -> "@" ^ zl a
+        | TKeyFlag a -> "KF" ^ zl a | TKeyShift v -> "KS" ^ z v | TTrackKey v -> "TK" ^ z v
+        | _ -> "?" in
+      let pts l = String.concat " " (List.map pt l) in
+      (match lex_of_prog prog with
+       | Ok toks -> if toks = top_tokens prog then "OK\t" ^ string_of_int (List.length toks)
+                    else "MISMATCH\t" ^ pts toks ^ "\t" ^ pts (top_tokens prog)
+       | Panic _ -> "PANIC" | OutOfFuel -> "OUTOFFUEL" | Unsupported w -> "UNSUPPORTED:" ^ string_of_z w)
   | k :: _ -> "UNKNOWN-KIND:" ^ k
   | [] -> "EMPTY"
 
